@@ -8,6 +8,7 @@
 // translation unit ill-formed, i.e. the harness no longer builds.
 #include "common.hpp"
 
+#include <cmath>
 #include <cstdlib>
 #include <new>
 
@@ -516,6 +517,18 @@ static long long battery(int which, int seed)
         auto tu = etl::to_string<21>(18446744073709551615ULL);
         acc += static_cast<long long>(w.size() + u.size() + ts.size() + tu.size() + w.find(L'x') + u.rfind(u'l'));
         acc += etl::stoi(etl::inplace_string<16>{"  -77 "}) + static_cast<long long>(etl::stoul(etl::inplace_string<16>{"0x1F"}, nullptr, 16));
+        // the floating-point readers / writers (to_floating_point, from_floating_point and their front ends)
+        etl::inplace_string<8> full8{"12345.75"};   // full: data()[8] is the terminator, nothing behind it is the string's
+        etl::size_t used = 0;
+        acc += static_cast<long long>(etl::stod(full8, &used)) + static_cast<long long>(used);
+        acc += static_cast<long long>(etl::stof(etl::inplace_string<4>{" 2.5"})) + static_cast<long long>(etl::strtod("3.5x", nullptr));
+        acc += static_cast<long long>(etl::atof("7.25"));
+        char fbuf[8];                               // "233.007" + terminator: exact fit
+        auto fr = etl::strings::from_floating_point(233.007, etl::span<char>{fbuf}, 3);
+        char tiny[2];
+        auto fo = etl::strings::from_floating_point(static_cast<double>(seed) + 0.5, etl::span<char>{tiny}, 2);   // reports overflow
+        acc += static_cast<long long>(fr.error == etl::strings::from_floating_point_error::none ? 1 : 0)
+             + static_cast<long long>(fo.error == etl::strings::from_floating_point_error::overflow ? 1 : 0);
         break;
     }
     default: break;
@@ -628,6 +641,23 @@ bool vh::run_case(std::string const& op, Toks& in, Out& impl, Out& ref)
         bool good = true;
         for (; i < n; ++i) { char c = heap[off + i]; if (!((c >= '0' && c <= '9') || c == '.')) { good = false; } }
         if (good) { ref.tok("ok").num(0).num(static_cast<i64>(n)); } else { ref.tok("ok").num(1).num(0); }
+        std::free(heap);
+        return true;
+    }
+    if (op == "fromfloat") {
+        // from_floating_point into an EXACT-SIZE heap buffer of n characters: a store past the span is an ASan report
+        auto whole = static_cast<double>(in.num());
+        auto k     = static_cast<double>(in.num());
+        auto m     = static_cast<int>(in.num());
+        auto prec  = static_cast<int>(in.num());
+        auto n     = static_cast<std::size_t>(in.num());
+        double val = whole + std::ldexp(k, -m);
+        char* heap = static_cast<char*>(std::malloc(n == 0 ? 1 : n));
+        std::memset(heap, 'x', n == 0 ? 1 : n);
+        auto r = etl::strings::from_floating_point(val, etl::span<char>{heap, n}, prec);
+        impl.tok("ok").num(static_cast<int>(r.error));
+        if (r.end == nullptr) { impl.tok("null"); } else { impl.num(r.end - heap); }
+        impl.list(heap, heap + n);
         std::free(heap);
         return true;
     }
